@@ -118,7 +118,7 @@ class CModel(Model):
                 st.emit('SGET', tuple(args), line, val=v)
                 return [R(st, v)]
             return [R(st, ('call', f, args, kws))]
-        if f[0] == 'lib' and ln in self.module.functions and any(contains_term(a, lambda t: t == SELF) for a in args):
+        if f[0] == 'lib' and ln in self.module.functions and any(contains_term(a, lambda t: t == SELF or t == ARCH or t[0] == 'arch') for a in args):
             fi = self.module.functions[ln]
             return self.engine.inline(fi.node, ln, {}, args, kws, st, node)
         return None
